@@ -144,6 +144,32 @@ func (vc *FnVC) libModel(in *ssa.Call, callee *ssa.Function) bool {
 		vc.setRes(in, Term{S: fmt.Sprintf("(mkSlice %s 0 32 32)", arr), Sort: "Slice"})
 		vc.modelUsed(name)
 		return true
+	case name == "io.ReadAtLeast" || name == "io.ReadFull":
+		// reads n bytes into buf[0:n]; err == nil iff at least min bytes were read; bytes of the
+		// backing array outside buf are untouched
+		buf := vc.val(args[1])
+		minT := fmt.Sprintf("(s.len %s)", buf.S)
+		if name == "io.ReadAtLeast" {
+			minT = vc.val(args[2]).S
+		}
+		c, s := vc.elemComp(types.Typ[types.Uint8])
+		arr := fmt.Sprintf("(s.arr %s)", buf.S)
+		lo := fmt.Sprintf("(s.off %s)", buf.S)
+		hi := fmt.Sprintf("(+ (s.off %s) (s.len %s))", buf.S, buf.S)
+		vc.checkRangeWrite(modItem{text: name + " buffer", kind: "range", ref: arr, comp: c, lo: lo, hi: hi, elem: types.Typ[types.Uint8]}, in.Pos())
+		f := vc.freshConst("rd", "(Array Int Int)")
+		old := fmt.Sprintf("(select %s %s)", vc.heapGet(c, s), arr)
+		vc.fact(fmt.Sprintf("(forall ((i Int)) (! (and (<= 0 (select %s i)) (<= (select %s i) 255) (=> (or (< i %s) (>= i %s)) (= (select %s i) (select %s i)))) :pattern ((select %s i))))", f, f, lo, hi, f, old, f))
+		vc.heapSet(c, s, fmt.Sprintf("(store %s %s %s)", vc.heapGet(c, s), arr, f))
+		n := vc.freshConst("rn", "Int")
+		e := vc.freshConst("rerr", "Int")
+		vc.fact(fmt.Sprintf("(and (>= %s 0) (<= %s (s.len %s)) (>= %s 0))", n, n, buf.S, e))
+		vc.fact(fmt.Sprintf("(=> (= %s 0) (>= %s %s))", e, n, minT))
+		vc.fact(fmt.Sprintf("(=> (not (= %s 0)) (< %s %s))", e, n, minT))
+		vc.fact(fmt.Sprintf("(=> (> %s (s.len %s)) (not (= %s 0)))", minT, buf.S, e))
+		vc.setRes(in, intT(n), intT(e))
+		vc.modelUsed(name)
+		return true
 	case name == "bytes.Count":
 		// only the single-byte separator form is modelled exactly
 		s, sep := vc.val(args[0]), vc.val(args[1])
